@@ -30,6 +30,8 @@ pub(crate) mod verif_mutex {
     /// "poll lock future #k with waker A" (partition of the script space; they consume no script byte).
     pub fn hist<M: RawMutex, S: Src>(s: &mut S, cfg: u32, n: usize, p: u32) -> u32 {
         let pre = ((cfg >> 2) & 3) as usize;
+        // bit 4: the script starts with a fixed try_lock (a guard is held while the `pre` futures queue up)
+        let lockfirst = ((cfg >> 4) & 1) as usize;
         let cfg = cfg & 3;
         let fair = if cfg == 2 { s.flag() } else { cfg == 1 };
         let m = GenericMutex::<M, u8>::new(0, fair);
@@ -58,7 +60,9 @@ pub(crate) mod verif_mutex {
         let mut step = 0;
         while step < n && !s.exhausted() {
             step += 1;
-            let op = if step <= pre { ((step - 1) * 2) as u8 } else { s.below(11) };
+            let op = if lockfirst == 1 && step == 1 { 10 }
+                     else if step <= pre + lockfirst { ((step - 1 - lockfirst) * 2) as u8 }
+                     else { s.below(11) };
             if op < 6 {
                 // ---- poll slot i with waker w ----
                 let i = (op / 2) as usize;
@@ -591,6 +595,21 @@ pub(crate) mod verif_mutex {
         hist_proof!(hist_c01_p3_n6, NoopLock, 6, P01, 2 | (3 << 2), 7);
         hist_proof!(hist_c01_p3_n7, NoopLock, 7, P01, 2 | (3 << 2), 8);
         hist_proof!(hist_c01_p3_n8, NoopLock, 8, P01, 2 | (3 << 2), 9);
+        hist_proof!(hist_c02_l_p3_n7, NoopLock, 7, P02, 2 | (3 << 2) | (1 << 4), 8);
+        hist_proof!(hist_c02_l_p3_n8, NoopLock, 8, P02, 2 | (3 << 2) | (1 << 4), 9);
+        hist_proof!(hist_c02_l_p2_n6, NoopLock, 6, P02, 2 | (2 << 2) | (1 << 4), 7);
+        hist_proof!(hist_c03_l_p3_n7, NoopLock, 7, P03, 2 | (3 << 2) | (1 << 4), 8);
+        hist_proof!(hist_c03_l_p3_n8, NoopLock, 8, P03, 2 | (3 << 2) | (1 << 4), 9);
+        hist_proof!(hist_c03_l_p2_n6, NoopLock, 6, P03, 2 | (2 << 2) | (1 << 4), 7);
+        hist_proof!(hist_c04_l_p3_n7, NoopLock, 7, P04, 1 | (3 << 2) | (1 << 4), 8);
+        hist_proof!(hist_c04_l_p3_n8, NoopLock, 8, P04, 1 | (3 << 2) | (1 << 4), 9);
+        hist_proof!(hist_c04_l_p2_n6, NoopLock, 6, P04, 1 | (2 << 2) | (1 << 4), 7);
+        hist_proof!(hist_c17_l_p3_n7, NoopLock, 7, P17, 2 | (3 << 2) | (1 << 4), 8);
+        hist_proof!(hist_c17_l_p3_n8, NoopLock, 8, P17, 2 | (3 << 2) | (1 << 4), 9);
+        hist_proof!(hist_c17_l_p2_n6, NoopLock, 6, P17, 2 | (2 << 2) | (1 << 4), 7);
+        hist_proof!(hist_c01_l_p3_n7, NoopLock, 7, P01, 2 | (3 << 2) | (1 << 4), 8);
+        hist_proof!(hist_c01_l_p3_n8, NoopLock, 8, P01, 2 | (3 << 2) | (1 << 4), 9);
+        hist_proof!(hist_c01_l_p2_n6, NoopLock, 6, P01, 2 | (2 << 2) | (1 << 4), 7);
         macro_rules! step_proof {
             ($name:ident, $lock:ty, $fair:expr, $class:expr, $p:expr) => {
                 #[kani::proof]
